@@ -5,11 +5,14 @@ package interp
 // Each has a written contract; anything outside it is inconclusive.
 
 import (
+	"bytes"
 	"encoding/json"
 	"fmt"
 	"go/types"
+	"io"
 	"regexp"
 	"strings"
+	"text/tabwriter"
 )
 
 const (
@@ -329,6 +332,16 @@ func extPrettySprint(fr *frame, args []value) value {
 	b, ok := itf.t.Underlying().(*types.Basic)
 	if !ok || b.Kind() != types.String {
 		i.abort("pretty.Sprint stub: operand of type %s is not modelled (reflection)", itf.t)
+	}
+	if gs, isGo := itf.v.(string); isGo && strings.ContainsAny(gs, "\t\v\f\xff") {
+		// a concrete text with bytes the tabwriter rewrites: the library writes a string operand
+		// through tabwriter.NewWriter(f, 4, 4, 1, ' ', 0) (formatter.Format, printValue with
+		// quote=false), which the host's text/tabwriter reproduces exactly
+		var buf bytes.Buffer
+		w := tabwriter.NewWriter(&buf, 4, 4, 1, ' ', 0)
+		io.WriteString(w, gs)
+		w.Flush()
+		return buf.String()
 	}
 	for _, c := range strBytes(itf.v) {
 		switch c := c.(type) {
